@@ -22,15 +22,18 @@ def Registry.run (ops : List RegOp) : Registry := ops.foldl Registry.step []
 /-- `DialURL`: the registered dialer for the scheme, or `none` = ErrMissingDialer. -/
 def Registry.dial (r : Registry) (scheme : Bytes) : Option Nat := (r.find? (·.1 = scheme)).map (·.2)
 
-/-- Events of one function body in source order: lock, unlock, access to the shared map. -/
-inductive MuEvent where | lock | unlock | access
+/-- Events of one function body in source order: lock, unlock, access to the shared map, and
+`dispatch` = the call into a registered dialer (`x.DialURL(…)` / `x.DialURLContext(…)`). -/
+inductive MuEvent where | lock | unlock | access | dispatch
 deriving DecidableEq, Repr
 
-/-- Every access happens with the lock held, and the lock is released at the end. -/
+/-- Every access happens with the lock held, the lock is released at the end, and a dialer is only
+called with the lock released (a dial may take minutes, or dial through the registry itself). -/
 def guarded : Bool → List MuEvent → Bool
   | held, [] => !held
   | held, .lock :: r => !held && guarded true r
   | held, .unlock :: r => held && guarded false r
   | held, .access :: r => held && guarded held r
+  | held, .dispatch :: r => !held && guarded held r
 
 end Wl2k.Url
